@@ -4,13 +4,13 @@
    Constant, no other Extract Inductive. *)
 Require Extraction.
 Require Import ExtrOcamlBasic.
-From FV Require Import Base.Serial Session.Window Link.SenderCredit Base.Bytes Codec.Value Codec.Enc Codec.Dec Codec.Spec Codec.Composite Codec.CompositeSpec Frame.AmqpFrame Frame.TransferWire Frame.Transfer Lib.LengthDelimited Session.Disposition Lib.Slab Session.Ids Conn.Lifecycle Conn.WireEvents Conn.Timers Link.Receiver Session.SessLife Auth.SaslListener Frame.SessionSplit Link.LinkLife Link.RecvLife Link.SendCancel Txn.Manager Conn.Failure Auth.ScramClient.
+From FV Require Import Base.Serial Session.Window Link.SenderCredit Base.Bytes Codec.Value Codec.Enc Codec.Dec Codec.Spec Codec.Composite Codec.Message Codec.CompositeSpec Frame.AmqpFrame Frame.TransferWire Frame.Transfer Lib.LengthDelimited Session.Disposition Lib.Slab Session.Ids Conn.Lifecycle Conn.WireEvents Conn.Timers Link.Receiver Session.SessLife Auth.SaslListener Frame.SessionSplit Link.LinkLife Link.RecvLife Link.SendCancel Txn.Manager Conn.Failure Auth.ScramClient.
 Extraction Language OCaml.
 Separate Extraction
   Window.run Window.step Window.begun_for_oracle Window.on_incoming_flow
   SenderCredit.lstep SenderCredit.linit SenderCredit.snd_on_incoming_flow
   Enc.enc_bytes Dec.from_slice Value.wf Spec.spec_valid
-  Composite.enc_composite Composite.size_composite Composite.dec_composite Composite.dispatch CompositeSpec.spec_schemas CompositeSpec.spec_field_names CompositeSpec.performative_schemas CompositeSpec.delivery_state_schemas Composite.dec_via_enum AmqpFrame.enc_frame AmqpFrame.dec_frame TransferWire.transfer_perfs
+  Composite.enc_composite Composite.size_composite Composite.dec_composite Composite.dispatch CompositeSpec.spec_schemas CompositeSpec.spec_field_names CompositeSpec.performative_schemas CompositeSpec.delivery_state_schemas Composite.dec_via_enum AmqpFrame.enc_frame AmqpFrame.dec_frame TransferWire.transfer_perfs Message.enc_message Message.dec_message Message.code_of_descriptor
   Transfer.wire_transfer Transfer.wire_other LengthDelimited.ld_feed_all
   Disposition.dstep
   Ids.lstep Ids.ls_init Ids.cstep Ids.cn_init
